@@ -76,6 +76,9 @@ func (x *Exec) verifyFunction(f *ssa.Function) (rep FuncReport) {
 		fr.env[fv.Name()] = x.freeVarSV(st, st.vals[fv], fv)
 	}
 	fr.pre = st.snapshot()
+	x.objInvEntry(st, f, args)
+	c = x.objInvCtor(f, c)
+	fr.contract = c
 	ctx := x.ctxFor(c, st, fr.pre, fr.env, f)
 	for _, r := range c.Requires {
 		st.assume(x.evalClause(ctx, r, c))
